@@ -994,6 +994,17 @@ func (ev *Eval) callExpr(x *ast.CallExpr) *Val {
 		sub.st = ev.old
 		sub.inOld = true
 		return sub.eval(x.Args[0])
+	case "atentry":
+		// atentry(e): the value of e when this loop was entered (loop
+		// invariants only); lets an invariant relate a cell to its value
+		// before the first iteration
+		if ev.loop == nil || ev.loop.entryOld == nil {
+			ev.fail("atentry() outside a loop invariant")
+			return vInt("0", nil)
+		}
+		sub := ev.sub()
+		sub.st = ev.loop.entryOld
+		return sub.eval(x.Args[0])
 	case "len":
 		v := arg(0)
 		switch v.K {
@@ -1763,7 +1774,7 @@ func (ev *Eval) identKnown(name string) bool {
 
 func isContractBuiltin(name string) bool {
 	switch name {
-	case "forall", "exists", "implies", "old", "pre", "len", "cap", "min", "max", "abs", "ite", "hint", "fresh", "isnil", "be16", "be32", "ref", "off", "has", "seen", "nseen", "is", "pow2", "typeis", "int", "bool", "string":
+	case "forall", "exists", "implies", "old", "pre", "len", "cap", "min", "max", "abs", "ite", "hint", "atentry", "fresh", "isnil", "be16", "be32", "ref", "off", "has", "seen", "nseen", "is", "pow2", "typeis", "int", "bool", "string":
 		return true
 	}
 	return false
